@@ -14,11 +14,19 @@ file-system effects through (slimta.diskstorage.mkstemp, .aio_write, .os -> prox
 rename/remove/unlink/open-for-write are wrapped, .uuid -> deterministic stand-in) and
 captures the complete contents of the three directories before and after every effect.
 The process has no other durable state, so "killed before/after effect k" == "that tree".
-The equivalence is cross-checked by really killing a child process (os._exit(137) inside
-the k-th wrapper) and comparing the surviving tree file-for-file with capture k.
+The equivalence is cross-checked by really killing child processes with SIGKILL:
+ (a) inside the k-th wrapper (os.kill(getpid(), SIGKILL)): the surviving tree must equal capture k
+     file-for-file;
+ (b) from outside, at an instant no instrumentation chose, while the child runs the history with the
+     module's own mkstemp/aio_write/os/uuid and journals op start/ack on a pipe: the surviving tree is
+     recovered against the fold of the journal;
+and by effect accounting (sequential histories: the tree changes only across instrumented effects).
 
-Recovery (fresh DiskStorage, fresh real slimta.queue.Queue with a recording Relay) runs
-on a materialised copy of every distinct (tree, expectation) pair.
+Histories are direct storage calls or are produced by the real Queue (enqueue + scripted relay double).
+
+Recovery (fresh DiskStorage, fresh real slimta.queue.Queue with a recording Relay; one configuration
+fails the first attempt so that the fresh Queue really *resumes retrying*) runs on a materialised copy
+of every distinct (tree, expectation) pair.
 """
 if __name__ == '__main__':          # child mode of the real-kill cross-check
     import os as _os
@@ -38,6 +46,9 @@ import shutil
 import hashlib
 import tempfile
 import subprocess
+import signal
+import select
+import time
 
 import gevent
 from gevent.event import Event
@@ -45,64 +56,107 @@ from gevent.event import Event
 import slimta.diskstorage as D
 import slimta.queue as Q
 from slimta.queue import Queue, QueueStorage
-from slimta.relay import Relay
+from slimta.relay import Relay, TransientRelayError, PermanentRelayError
 from slimta.envelope import Envelope
 
 from vf import core
 
 PROPERTY = 'C04'
 LEVEL = 'fault_enumeration'
-LEVEL_TEXT = ('Real DiskStorage executes generated operation histories (1-3 messages, 4-12 operations, '
-              'sequential and one-greenlet-per-message overlapping); the directory tree is captured before and '
+LEVEL_TEXT = ('Real DiskStorage executes generated operation histories: direct storage calls (1-3 messages, 4-12 '
+              'operations, sequential and one-greenlet-per-message overlapping, several marking rounds per message) '
+              'and histories produced by the REAL Queue (enqueue + a relay double with scripted per-attempt outcomes: '
+              'transient / unexpected exception / permanent / per-recipient mappings / delivered / give-up, so the '
+              'operation orders are the Queue\'s own: write; increment_attempts, set_timestamp[, '
+              'set_recipients_delivered]; remove). The directory tree is captured before and '
               'after EVERY file-system effect (temp-file creation, each AIO chunk, rename, unlink) and at every '
               'operation boundary; every distinct (tree, acknowledged-state) pair is recovered by a fresh '
-              'DiskStorage and a fresh real Queue (default pools on every state; store_pool 1 and 2, relay_pool 1, backlog-due-after-scan on every '
+              'DiskStorage and a fresh real Queue (default pools on every state; a retrying relay -- first attempt '
+              'fails, so the fresh Queue updates the recovered files and must attempt again --, store_pool 1 and 2, '
+              'relay_pool 1, backlog-due-after-scan on every '
               'distinct env+meta content) and judged against the fold of the acknowledged operations. '
-              'A sample of crash points is cross-checked with a really killed child process. Held = no '
+              'Cross-checks with really SIGKILLed child processes: (a) at sampled capture points (tree must equal '
+              'the capture), (b) from outside at un-instrumented instants of an un-instrumented run (all modes, '
+              'AIO possibly in flight; expectation from an op start/ack journal on a pipe); sequential histories '
+              'are also effect-accounted (no tree change without an instrumented effect). Held = no '
               'enumerated crash state of the generated histories lost or corrupted an acknowledged message; '
               'not a proof for other histories, and silent about power loss.')
-LEVEL_NOTE = ('Trusted: the tree capture/materialise pair (30 lines), the per-message store model (fold of '
-              'acknowledged ops, 25 lines), the recording Relay and the quiescence rule of the fresh Queue. '
+LEVEL_NOTE = ('Crash model = the statement\'s "the process dies" (kill -9): every completed system call survives, '
+              'kernel buffers are not lost; the code never fsyncs, so a rename that is durable without its data '
+              '(power loss) is NOT promised and not judged. '
+              'Only one I/O path exists in this tree: slimta/diskstorage imports pyaio unconditionally (pyaio 0.4 '
+              'is installed; there is no non-AIO fallback to run). '
+              'Trusted: the tree capture/materialise pair (30 lines), the per-message store model (fold of '
+              'acknowledged ops, 30 lines), the recording Relay and the quiescence rule of the fresh Queue. '
               'os.close changes no directory state and is therefore not a separate crash point. Recovery runs '
-              'with the default AioFile.chunk_size (a fresh process would), the history with a lowered one.')
+              'with the default AioFile.chunk_size (a fresh process would), the history with a lowered one. '
+              'A kill in the middle of ONE chunk write (torn chunk) is not enumerated -- chunk sizes 16/64/256 give '
+              'prefixes at that granularity and temp files are never read back; the outside-SIGKILL stratum produces '
+              'such states only by chance.')
 TECHNIQUE = ('runtime monitoring with exhaustive crash-point enumeration: snapshot-at-every-fs-effect, '
-             'recovery oracle over fresh DiskStorage + Queue, real-kill (os._exit) equivalence cross-check')
-RULE = ('case = one history: 1-3 messages x 4-12 operations from {write, increment_attempts, set_timestamp, '
-        'set_recipients_delivered (once per message, proper subset of indexes), remove}, chunk size in '
-        '{16,64,256}, mode sequential | overlapping greenlets (one per message, seeded yields), optional forced '
+             'recovery oracle over fresh DiskStorage + Queue, real SIGKILL cross-checks (instrumented point / from '
+             'outside with a journal), effect accounting')
+RULE = ('case = one history. Direct: 1-3 messages x 4-12 operations from {write, increment_attempts, set_timestamp, '
+        'set_recipients_delivered (several rounds per message, each a proper subset of the recipients left), remove}, '
+        'mode sequential | overlapping greenlets (one per message, seeded yields), optional forced '
         'uuid collision with an existing id, write/retry timestamps all equal | ascending | descending per message '
-        '(all in the past, so (timestamp, id) order of the restart backlog varies); every capture point of the history is one crash state, every '
+        '(all in the past, so (timestamp, id) order of the restart backlog varies), 10%: one envelope > 2 default '
+        'AIO chunks. Queue-driven: 1-3 messages enqueued (seeded delays) into a real started Queue whose relay '
+        'double follows a per-message script of 0-4 failing rounds (message 0 always two marking rounds) and an end '
+        '(held / delivered / permanent / all settled / backoff gives up). chunk size in {16,64,256}. '
+        'Every capture point of the history is one crash state, every '
         'distinct (tree bytes, expectation) is one evaluation (recovery). non-trivial & distinct = distinct '
         '(mode, operation, effect kind, target dir, before/after, ordinal of the effect inside the operation, '
         'number of acknowledged live messages) whose crash point lies strictly inside a multi-effect operation '
-        '(>=1 effect done, >=1 still to come) while >=1 acknowledged live message is on disk')
+        '(>=1 effect done, >=1 still to come) while >=1 acknowledged live message is on disk; plus distinct '
+        '(mode, operations in flight, tree class, temp leftovers) of the outside-SIGKILL states')
 ASSUMPTIONS = [
-    'process death only: kernel buffers survive (the code never fsyncs; power loss / page-cache loss is out of reach)',
+    'process death only (kill -9): kernel buffers survive (the code never fsyncs; power loss / page-cache loss is '
+    'outside the statement and out of reach)',
     'the only durable state of DiskStorage is the content of env_dir, meta_dir, tmp_dir (checked by the real-kill '
     'cross-check: surviving tree == capture k, tmp files compared by content)',
     'every durable effect of the module goes through mkstemp, aio_write, os.rename, os.remove/unlink or a writing '
-    'os.open as looked up in slimta.diskstorage; an effect performed through another name would show up as a '
-    'real-kill mismatch, not be silently missed',
-    'operations on ONE message are never concurrent with each other (one greenlet per message); concurrent '
+    'os.open as looked up in slimta.diskstorage; an effect performed through another name is reported by the '
+    'effect accounting of the sequential histories (equivalence/durable-effect-outside-instrumentation), its '
+    'intermediate states are not enumerated (the outside-SIGKILL stratum hits them only by chance)',
+    'operations on ONE message are never concurrent with each other (one greenlet per message; the real Queue is '
+    'observed to respect this: counter same-message-operations-overlapped); concurrent '
     'read-modify-write of one meta file is another property',
-    'overlapping mode depends on AIO completion timing, so its interleavings are seeded but not bit-reproducible; '
-    'the real-kill cross-check therefore samples sequential histories only',
+    'overlapping and Queue-driven histories depend on AIO completion timing, so their interleavings are seeded but '
+    'not bit-reproducible; the capture-point SIGKILL cross-check therefore samples sequential histories only, the '
+    'outside-SIGKILL cross-check (journal) covers all modes',
     'a message whose write() had not returned, and a message whose remove() was in flight, need not be recoverable; '
-    'messages whose remove() returned are not required to be absent (repeated delivery is allowed)',
-    'timestamps are written in the past so a fresh Queue finds everything due at once (no virtual clock needed)',
+    'messages whose remove() returned are not required to be absent (repeated delivery is allowed); a message the '
+    'fresh Queue hands to the relay without being required must still carry the content that was accepted',
+    'acknowledgement = return of DiskStorage.write; Queue.enqueue returns later and is checked to return exactly '
+    'the acknowledged id (Queue-driven histories)',
+    'direct histories write timestamps in the past, Queue-driven ones the real time of the run: a fresh Queue finds '
+    'everything due at once (no virtual clock needed)',
     'fresh-Queue configurations: (store_pool, relay_pool) in {(None,None),(1,None),(2,None)} with a relay that '
-    'records and holds the attempt, (None,1) with a relay that reports delivery, and store_pool None/1 with the '
+    'records and holds the attempt, (None,None) with backoff 0 and a relay that fails the first attempt of each '
+    'message (last recipient delivered, the others 450) and holds the second, (None,1) with a relay that reports '
+    'delivery, and store_pool None/1 with the '
     'whole backlog coming due right after the start-up scan (harness clock substituted for slimta.queue.time, '
     'scheduler woken through Queue.wake); both pools bounded is not '
     'run (known pool cycle, another property); a greenlet crash inside the fresh Queue is recorded in the '
     'witness and is a violation only through the attempts it prevents',
+    'a second crash during the recovery run itself is not enumerated separately: load()/get() write nothing, and the '
+    'fresh Queue\'s updates are ordinary operations over a tree with leftovers (covered by the retry configuration, '
+    'un-crashed)',
+    'bounces are switched off in the Queue-driven histories (bounce_factory returns None): a bounce is a new '
+    'message whose enqueue has not returned',
 ]
-REQUIRED_HITS = ['recovery-judged', 'queue-attempts-judged', 'real-kill-compared']
-SHARDS = {'quick': 8, 'thorough': 16}
-BUDGET = {'quick': 50, 'thorough': 700}
+REQUIRED_HITS = ['recovery-judged', 'queue-attempts-judged', 'real-kill-compared', 'queue-driven-history-judged',
+                 'overlapping-ops-crash-state-judged', 'half-written-state-judged', 'half-removed-state-judged',
+                 'leftover-tmp-state-judged', 'fresh-queue-retry-judged', 'async-sigkill-judged',
+                 'async-sigkill-inside-operation-judged']
+SHARDS = {'quick': 16, 'thorough': 16}
+BUDGET = {'quick': 60, 'thorough': 700}
 
 NHIST = {'quick': 32, 'thorough': 608}
-NKILLS = {'quick': 2, 'thorough': 4}
+NQHIST = {'quick': 8, 'thorough': 160}     # histories driven by the real Queue (h >= NHIST)
+NKILLS = {'quick': 1, 'thorough': 3}      # SIGKILL at an instrumented point (sequential histories)
+NAKILLS = {'quick': 1, 'thorough': 2}     # SIGKILL from outside at an un-instrumented instant (all modes)
 PY = '/venv/bin/python'
 DIRS = ('env', 'meta', 'tmp')
 
@@ -135,13 +189,17 @@ def make_case(rnd, h, tier):
     nmsg = rnd.choice([1, 2, 2, 3, 3])
     msgs = []
     for i in range(nmsg):
-        nr = rnd.randint(2, 4)
+        nr = rnd.randint(3, 6) if (h >= NHIST[tier] or i == 0) else rnd.randint(2, 4)
         blen = rnd.choice([0, 30, 120, 400, 1100])
         body = bytes(rnd.choice(b'abcdefgh \r\n\xe9\xff.') for _ in range(blen))
         msgs.append({'sender': 's%d.%d@from.example' % (h, i),
                      'rcpts': ['r%d.%d.%d@to.example' % (h, i, j) for j in range(nr)],
                      'body': body, 'subject': 'history %d message %d' % (h, i)})
-    ops, written, gone, marked, nxt = [], [], set(), set(), 0
+    chunk = rnd.choice([16, 64, 64, 256])
+    if h >= NHIST[tier]:
+        return make_queue_case(rnd, h, tier, msgs, chunk)
+    ops, written, gone, nxt = [], [], set(), 0
+    left = [len(m['rcpts']) for m in msgs]      # recipients still outstanding (marks are relative to them)
     target = rnd.randint(4, 12)
     tscheme = rnd.choice(['equal', 'equal', 'asc', 'desc'])
     while len(ops) < target:
@@ -150,7 +208,7 @@ def make_case(rnd, h, tier):
         if nxt < nmsg:
             ch += ['write'] * (2 if live else 1)
         if live:
-            ch += ['inc', 'inc', 'ts', 'mark']
+            ch += ['inc', 'inc', 'ts', 'mark', 'mark']
             if len(ops) >= 3 or len(live) > 1 or nxt < nmsg:
                 ch += ['remove']
         if not ch:
@@ -169,11 +227,13 @@ def make_case(rnd, h, tier):
             # past timestamps, equal to / below / above the other messages' ones
             ops.append([m, 'ts', rnd.choice([0.5, 1.0, 5.0, 2.0 + len(ops), 20.5 + len(ops)]), y])
         elif kind == 'mark':
-            if m in marked:
+            # several marking rounds per message, as the real Queue produces them: the indexes of a round
+            # refer to the recipients the earlier rounds left over; never all of them (the Queue removes then)
+            n = left[m]
+            if n < 2:
                 continue
-            marked.add(m)
-            n = len(msgs[m]['rcpts'])
             idx = sorted(rnd.sample(range(n), rnd.randint(1, n - 1)))
+            left[m] -= len(idx)
             if rnd.random() < 0.3:
                 idx.reverse()
             ops.append([m, 'mark', idx, y])
@@ -181,13 +241,56 @@ def make_case(rnd, h, tier):
             ops.append([m, 'remove', None, y])
             gone.add(m)
     mode = 'seq' if h % 2 == 0 else 'conc'
-    return {'h': h, 'mode': mode, 'chunk': rnd.choice([16, 64, 64, 256]), 'msgs': msgs, 'ops': ops,
+    if rnd.random() < 0.1:
+        # one envelope larger than two default AIO chunks: recovery (default chunk_size) reads it in pieces
+        msgs[0]['body'] = bytes(rnd.choice(b'abcdefgh \r\n\xe9\xff.') for _ in range(300)) * 120
+        chunk = 16384
+    return {'h': h, 'mode': mode, 'chunk': chunk, 'msgs': msgs, 'ops': ops,
             'collide': rnd.random() < 0.35,
-            'kills': sorted(rnd.random() for _ in range(NKILLS[tier])) if mode == 'seq' else []}
+            'kills': sorted(rnd.random() for _ in range(NKILLS[tier])) if mode == 'seq' else [],
+            'akills': [[rnd.random(), rnd.choice([0, 0.1, 0.2, 0.35, 0.5, 0.7, 1.0])] for _ in range(NAKILLS[tier])]}
+
+
+def make_queue_case(rnd, h, tier, msgs, chunk):
+    """History produced by the REAL Queue: enqueue + scripted relay outcomes per attempt.
+    script items: 'T' transient, 'X' unexpected exception, 'F' permanent, 'OK' delivered,
+    ['P', codes] per-recipient mapping (d delivered, t transient, f permanent; by position among the
+    recipients of that attempt), 'H' relay holds the attempt (message stays live)."""
+    script, giveup, enq = [], [], []
+    for m in msgs:
+        n = len(m['rcpts'])
+        sc = []
+        stop = rnd.choice([None, None, None, 1, 2, 3])      # backoff gives up after that many failures
+        if m is msgs[0] and stop is not None:
+            stop += 2
+        first = m is msgs[0]                # message 0: always two marking rounds (>= 3 recipients)
+        rounds = rnd.randint(2, 4) if first else rnd.randint(0, 4)
+        for j in range(rounds):
+            k = 'P' if (first and j < 2) else rnd.choice(['T', 'T', 'X', 'P', 'P', 'P'])
+            if k == 'P' and n >= 2:
+                nt = rnd.randint(2 if (first and j == 0) else 1, n - 1)
+                codes = ['t'] * nt + [rnd.choice('ddf') for _ in range(n - nt)]
+                rnd.shuffle(codes)
+                sc.append(['P', ''.join(codes)])
+                n = nt
+            else:
+                sc.append('T' if k == 'P' else k)
+        if stop is not None and stop <= len(sc):
+            sc = sc[:stop]
+        else:
+            stop = None
+            end = rnd.choice(['H', 'H', 'H', 'OK', 'F', 'PD'])
+            sc.append(['P', ''.join(rnd.choice('df') for _ in range(n))] if end == 'PD' else end)
+        script.append(sc)
+        giveup.append(stop)
+        enq.append(rnd.choice([0, 0, 1, 3, 8, 20]))
+    return {'h': h, 'mode': 'queue', 'chunk': chunk, 'msgs': msgs, 'ops': [], 'script': script,
+            'giveup': giveup, 'enq': enq, 'collide': False, 'kills': [],
+            'akills': [[rnd.random(), rnd.choice([0, 0.1, 0.2, 0.35, 0.5, 0.7, 1.0])] for _ in range(NAKILLS[tier])]}
 
 
 def gen_cases(tier, seed, shard, nshards):
-    for h in range(NHIST[tier]):
+    for h in range(NHIST[tier] + NQHIST[tier]):
         if h % nshards != shard:
             continue
         yield make_case(random.Random('c04-%d-%d' % (seed, h)), h, tier)
@@ -226,10 +329,17 @@ def read_tree(root):
 
 
 def write_tree(tree, root):
+    """Materialise `tree` under root; an existing root is re-used (emptied of files first: creating and
+    removing directories is the expensive part on a loaded machine)."""
     for d in DIRS:
-        os.makedirs(os.path.join(root, d))
+        p = os.path.join(root, d)
+        if os.path.isdir(p):
+            for fn in os.listdir(p):
+                os.unlink(os.path.join(p, fn))
+        else:
+            os.makedirs(p)
         for fn, data in tree[d].items():
-            with open(os.path.join(root, d, fn), 'wb') as f:
+            with open(os.path.join(p, fn), 'wb') as f:
                 f.write(data)
 
 
@@ -272,12 +382,14 @@ class OpCtx(object):
 
 
 class Tracer(object):
-    """Numbers the capture points; parent mode captures the tree at each, child mode kills at one."""
+    """Numbers the capture points; parent mode captures the tree at each, kill-child mode really
+    SIGKILLs itself at one, journal-child mode only writes op start/ack lines to a pipe."""
 
-    def __init__(self, root, expect_fn=None, kill_at=None):
+    def __init__(self, root, expect_fn=None, kill_at=None, journal_fd=None):
         self.root = root
         self.expect_fn = expect_fn
         self.kill_at = kill_at
+        self.journal_fd = journal_fd
         self.n = 0
         self.snaps = []
         self.ctx = {}
@@ -285,12 +397,20 @@ class Tracer(object):
     def current(self):
         return self.ctx.get(gevent.getcurrent())
 
+    def journal(self, *rec):
+        if self.journal_fd is not None:
+            os.write(self.journal_fd, (core.jdumps(list(rec)) + '\n').encode())
+
     def boundary(self, phase, effect, target):
         k = self.n
         self.n += 1
+        if self.journal_fd is not None:
+            return
         if self.kill_at is not None:
             if k == self.kill_at:
-                os._exit(137)
+                os.kill(os.getpid(), signal.SIGKILL)
+                time.sleep(60)          # never reached: SIGKILL is delivered on return from kill()
+                os._exit(4)
             return
         op = self.current()
         self.snaps.append({'k': k, 'tree': read_tree(self.root), 'phase': phase, 'effect': effect,
@@ -378,12 +498,16 @@ class OsProxy(object):
 class Installed(object):
     """Substitutes the module-level names of slimta.diskstorage; always restored."""
 
-    def __init__(self, tracer, chunk, fake_uuid):
-        self.t, self.chunk, self.fu = tracer, chunk, fake_uuid
+    def __init__(self, tracer, chunk, fake_uuid, light=False):
+        self.t, self.chunk, self.fu, self.light = tracer, chunk, fake_uuid, light
 
     def __enter__(self):
         t = self.t
         self.saved = (D.mkstemp, D.aio_write, D.os, D.uuid, D.AioFile.chunk_size)
+        if self.light:
+            # journal child: the module runs with its own mkstemp / aio_write / os / uuid
+            D.AioFile.chunk_size = self.chunk
+            return self
         o_mkstemp, o_aio_write = D.mkstemp, D.aio_write
 
         def mkstemp(*a, **kw):
@@ -426,8 +550,13 @@ def new_model(case):
             for _ in case['msgs']]
 
 
+def copy_model(model):
+    return [dict(st, deliv=[list(r) for r in st['deliv']]) for st in model]
+
+
 def model_ack(st, kind, arg, result):
-    """Fold one ACKNOWLEDGED operation into the per-message model."""
+    """Fold one ACKNOWLEDGED operation into the per-message model. 'deliv' is the list of marking
+    rounds; the indexes of a round refer to the recipients the earlier rounds left over."""
     if kind == 'write':
         st.update(state='live', id=result, att=0, ts=arg, deliv=[])
     elif kind == 'inc':
@@ -435,58 +564,248 @@ def model_ack(st, kind, arg, result):
     elif kind == 'ts':
         st['ts'] = arg
     elif kind == 'mark':
-        st['deliv'] = st['deliv'] + list(arg)
+        st['deliv'] = st['deliv'] + [list(arg)]
     elif kind == 'remove':
         st['state'] = 'removed'
     st['inflight'] = None
 
 
-def run_history(case, root, tracer, model, problems):
+def outstanding(rcpts, rounds):
+    left = list(rcpts)
+    for rnd in rounds:
+        drop = set(rnd)
+        left = [r for i, r in enumerate(left) if i not in drop]
+    return left
+
+
+class TracedStore(QueueStorage):
+    """The storage object the history talks to (directly, or through the real Queue): delegates to the
+    real DiskStorage and keeps the acknowledged-operations model / capture points / journal."""
+
+    def __init__(self, inner, tracer, model, case, problems, fu):
+        super(TracedStore, self).__init__()
+        self.inner, self.tracer, self.model, self.problems, self.fu = inner, tracer, model, problems, fu
+        self.by_sender = dict((m['sender'], i) for i, m in enumerate(case['msgs']))
+        self.by_id = {}
+        self.seq = 0
+        self.inprogress = 0
+        self.load_done = False
+        self.dead = set()
+        self.oplog = {}
+        self.notes = {}
+
+    def _op(self, m, kind, arg, call):
+        st, tracer = self.model[m], self.tracer
+        if m in self.dead:
+            return call()
+        if st['inflight'] is not None:
+            # two operations on ONE message overlap: outside the model (see ASSUMPTIONS); nothing more
+            # is demanded of this message
+            self.notes['same-message-operations-overlapped'] = 1 + self.notes.get(
+                'same-message-operations-overlapped', 0)
+            st['state'] = 'unknown'
+            self.dead.add(m)
+            tracer.journal('raised', -1, m, kind, None)
+            return call()
+        seq = self.seq
+        self.seq += 1
+        op = OpCtx(seq, m, kind, arg)
+        g = gevent.getcurrent()
+        tracer.ctx[g] = op
+        st['inflight'] = [kind, arg]
+        self.oplog.setdefault(m, []).append(kind)
+        self.inprogress += 1
+        tracer.journal('start', seq, m, kind, arg)
+        tracer.boundary('op', 'start', '-')
+        try:
+            res = call()
+        except Exception as e:
+            # not acknowledged: its effect is unknown for good; nothing more is demanded of m
+            self.inprogress -= 1
+            self.problems.append('%s(m%d) raised %s: %s' % (kind, m, type(e).__name__, e))
+            st['state'] = 'unknown'
+            self.dead.add(m)
+            tracer.journal('raised', seq, m, kind, None)
+            tracer.boundary('op', 'raised', '-')
+            tracer.ctx.pop(g, None)
+            raise
+        except BaseException:
+            self.inprogress -= 1        # greenlet killed at the end of the history
+            raise
+        # ---- acknowledged (no yield between the return and this bookkeeping)
+        self.inprogress -= 1
+        model_ack(st, kind, arg, res)
+        if kind == 'write':
+            self.by_id[res] = m
+            if self.fu is not None:
+                self.fu.acked_ids.append(res)
+        tracer.journal('ack', seq, m, kind, arg, res)
+        op.total = op.effects
+        tracer.boundary('op', 'return', '-')
+        tracer.ctx.pop(g, None)
+        return res
+
+    def write(self, envelope, timestamp):
+        m = self.by_sender[envelope.sender]
+        return self._op(m, 'write', timestamp, lambda: self.inner.write(envelope, timestamp))
+
+    def _m(self, id):
+        return self.by_id.get(id)
+
+    def set_timestamp(self, id, timestamp):
+        m = self._m(id)
+        if m is None:
+            return self.inner.set_timestamp(id, timestamp)
+        return self._op(m, 'ts', timestamp, lambda: self.inner.set_timestamp(id, timestamp))
+
+    def increment_attempts(self, id):
+        m = self._m(id)
+        if m is None:
+            return self.inner.increment_attempts(id)
+        return self._op(m, 'inc', None, lambda: self.inner.increment_attempts(id))
+
+    def set_recipients_delivered(self, id, rcpt_indexes):
+        m = self._m(id)
+        if m is None:
+            return self.inner.set_recipients_delivered(id, rcpt_indexes)
+        arg = list(rcpt_indexes) if isinstance(rcpt_indexes, (list, tuple)) else sorted(rcpt_indexes)
+        return self._op(m, 'mark', arg, lambda: self.inner.set_recipients_delivered(id, rcpt_indexes))
+
+    def remove(self, id):
+        m = self._m(id)
+        if m is None:
+            return self.inner.remove(id)
+        return self._op(m, 'remove', None, lambda: self.inner.remove(id))
+
+    def get(self, id):
+        return self.inner.get(id)
+
+    def load(self):
+        try:
+            for e in self.inner.load():
+                yield e
+        finally:
+            self.load_done = True
+
+    def wait(self):
+        return self.inner.wait()
+
+
+class ScriptRelay(Relay):
+    """Relay double of the Queue-driven histories: the outcome of attempt n of message m is scripted."""
+
+    def __init__(self, case, by_sender):
+        super(ScriptRelay, self).__init__()
+        self.case, self.by_sender = case, by_sender
+        self.n = [0] * len(case['msgs'])
+        self.holding = set()
+        self.greenlets = []
+        self.log = []
+        self.enqueued = []
+        self.stalled = False
+
+    def backoff(self, envelope, attempts):
+        stop = self.case['giveup'][self.by_sender[envelope.sender]]
+        return None if (stop is not None and attempts >= stop) else 0
+
+    def attempt(self, envelope, attempts):
+        m = self.by_sender[envelope.sender]
+        sc = self.case['script'][m]
+        n = self.n[m]
+        self.n[m] += 1
+        out = sc[n] if n < len(sc) else 'H'
+        self.log.append((m, n, attempts, len(envelope.recipients)))
+        if out == 'H':
+            self.holding.add(m)
+            self.greenlets.append(gevent.getcurrent())
+            Event().wait()
+        if out == 'T':
+            raise TransientRelayError('450 4.0.0 relay double: later')
+        if out == 'F':
+            raise PermanentRelayError('550 5.0.0 relay double: never')
+        if out == 'X':
+            raise RuntimeError('relay double: unexpected failure')
+        if out == 'OK':
+            return None
+        res = {}
+        for i, r in enumerate(envelope.recipients):
+            c = out[1][i] if i < len(out[1]) else 't'
+            res[r] = (None if c == 'd' else TransientRelayError('450 4.0.0 later') if c == 't'
+                      else PermanentRelayError('550 5.0.0 never'))
+        return res
+
+
+def run_queue_history(case, store, envs, model):
+    """The real Queue produces the operation order: enqueue -> write; failed attempt ->
+    increment_attempts, set_timestamp[, set_recipients_delivered]; final disposition -> remove."""
+    relay = ScriptRelay(case, store.by_sender)
+    q = Queue(store, relay, backoff=relay.backoff, bounce_factory=lambda env, reply: None)
+    q.start()
+    gs = []
+    try:
+        while not store.load_done:          # the (empty) start-up scan first, like a booted daemon
+            gevent.sleep(0.001)
+
+        def enq(m, delay):
+            for _ in range(delay):
+                gevent.sleep(0.001)
+            for env, id_ in q.enqueue(envs[m]):
+                relay.enqueued.append((m, id_ if isinstance(id_, str) else repr(id_)))
+        gs = [gevent.spawn(enq, m, d) for m, d in enumerate(case['enq'])]
+        mark, since = None, time.time()
+        while True:
+            gevent.sleep(0.002)
+            if store.inprogress == 0 and all(
+                    (m in relay.holding) or st['state'] in ('removed', 'unknown')
+                    for m, st in enumerate(model)):
+                gevent.idle()
+                if store.inprogress == 0:
+                    break
+            # a Queue that stops driving the script (not this property's business) must not hang the case
+            now = (store.seq, len(relay.log), store.inprogress)
+            if now != mark or store.inprogress:
+                mark, since = now, time.time()
+            elif time.time() - since > 3.0:
+                relay.stalled = True
+                break
+    finally:
+        q.kill()
+        gevent.killall(gs + relay.greenlets)
+    return relay
+
+
+def run_history(case, root, tracer, model, problems, light=False):
     """Execute the history against the real DiskStorage. Used by the parent (capturing) and by
-    the killed child (counting)."""
-    store = D.DiskStorage(os.path.join(root, 'env'), os.path.join(root, 'meta'), os.path.join(root, 'tmp'))
+    the killed children (counting / journalling)."""
+    inner = D.DiskStorage(os.path.join(root, 'env'), os.path.join(root, 'meta'), os.path.join(root, 'tmp'))
     fu = FakeUuid('h%d' % case['h'], case.get('collide'))
+    store = TracedStore(inner, tracer, model, case, problems, fu)
     envs = [build_envelope(m) for m in case['msgs']]
-    dead = set()
 
     def do_op(seq, m, kind, arg, yields):
-        if m in dead:
+        if m in store.dead:
             return
         for _ in range(yields):
             gevent.sleep(0)
         st = model[m]
-        op = OpCtx(seq, m, kind, arg)
-        tracer.ctx[gevent.getcurrent()] = op
-        st['inflight'] = [kind, arg]
-        tracer.boundary('op', 'start', '-')
         try:
             if kind == 'write':
-                res = store.write(envs[m], arg)
+                store.write(envs[m], arg)
             elif kind == 'inc':
-                res = store.increment_attempts(st['id'])
+                store.increment_attempts(st['id'])
             elif kind == 'ts':
-                res = store.set_timestamp(st['id'], arg)
+                store.set_timestamp(st['id'], arg)
             elif kind == 'mark':
-                res = store.set_recipients_delivered(st['id'], list(arg))
+                store.set_recipients_delivered(st['id'], list(arg))
             else:
-                res = store.remove(st['id'])
-        except Exception as e:
-            # not acknowledged: its effect is unknown for good; nothing more is demanded of m
-            problems.append('%s(m%d) raised %s: %s' % (kind, m, type(e).__name__, e))
-            st['state'] = 'unknown'
-            dead.add(m)
-            tracer.boundary('op', 'raised', '-')
+                store.remove(st['id'])
+        except Exception:
             return
-        # ---- acknowledged (no yield between the return and this bookkeeping)
-        model_ack(st, kind, arg, res)
-        if kind == 'write':
-            fu.acked_ids.append(res)
-        op.total = op.effects
-        tracer.boundary('op', 'return', '-')
-        tracer.ctx.pop(gevent.getcurrent(), None)
 
-    with Installed(tracer, case['chunk'], fu):
-        if case['mode'] == 'seq':
+    with Installed(tracer, case['chunk'], fu, light):
+        if case['mode'] == 'queue':
+            fu.relay = run_queue_history(case, store, envs, model)
+        elif case['mode'] == 'seq':
             for seq, (m, kind, arg, y) in enumerate(case['ops']):
                 do_op(seq, m, kind, arg, y)
         else:
@@ -502,27 +821,40 @@ def run_history(case, root, tracer, model, problems):
                 gevent.joinall(gs, raise_error=True)
             finally:
                 gevent.killall(gs)
+    fu.store = store
     return fu
 
 
 # --------------------------------------------------------------------------- recovery oracle
 
 class RecRelay(Relay):
-    """Records every attempt a fresh Queue makes; then either holds it (no further store
-    traffic) or reports it delivered (the Queue then removes the message from the copy)."""
+    """Records every attempt a fresh Queue makes; then holds it (no further store traffic), or reports
+    it delivered (the Queue then removes the message from the copy), or -- retry mode -- fails the FIRST
+    attempt of each message (last recipient delivered, the others 450; a lone recipient: 450) and holds
+    the second one: the fresh Queue then runs increment_attempts / set_timestamp /
+    set_recipients_delivered over the recovered files (and the left-over temp files) and must come back."""
 
-    def __init__(self, deliver=False):
+    def __init__(self, deliver=False, retry=False):
         super(RecRelay, self).__init__()
         self.attempts = []
         self.greenlets = []
         self.hold = Event()
         self.deliver = deliver
+        self.retry = retry
 
     def attempt(self, envelope, attempts):
+        nth = sum(1 for a in self.attempts if a['sender'] == envelope.sender)
         self.attempts.append({'sender': envelope.sender, 'rcpts': list(envelope.recipients),
                               'content': flat(envelope), 'attempts': attempts})
         if self.deliver:
             return None
+        if self.retry and nth == 0:
+            rc = list(envelope.recipients)
+            if len(rc) < 2 or len(set(rc)) < len(rc):
+                raise TransientRelayError('450 4.0.0 recovery relay: later')
+            res = dict((r, TransientRelayError('450 4.0.0 recovery relay: later')) for r in rc)
+            res[rc[-1]] = None          # the highest index: a new marking round on top of the recovered ones
+            return res
         self.greenlets.append(gevent.getcurrent())
         self.hold.wait()
 
@@ -539,6 +871,7 @@ class RecRelay(Relay):
 # the restart of a queue whose retry times lie shortly ahead.
 QUEUE_CONFIGS = [
     ('default', {}, False, False),
+    ('retry', {'backoff': lambda envelope, attempts: 0}, 'retry', False),
     ('store_pool=1', {'store_pool': 1}, False, False),
     ('store_pool=2', {'store_pool': 2}, False, False),
     ('relay_pool=1', {'relay_pool': 1}, True, False),
@@ -611,10 +944,9 @@ def allowed(msg, st):
     inf = st['inflight'] or [None, None]
     atts = {st['att']} | ({st['att'] + 1} if inf[0] == 'inc' else set())
     tss = {st['ts']} | ({inf[1]} if inf[0] == 'ts' else set())
-    rc = [[r for i, r in enumerate(msg['rcpts']) if i not in st['deliv']]]
+    rc = [outstanding(msg['rcpts'], st['deliv'])]
     if inf[0] == 'mark':
-        both = set(st['deliv']) | set(inf[1])
-        rc.append([r for i, r in enumerate(msg['rcpts']) if i not in both])
+        rc.append(outstanding(msg['rcpts'], st['deliv'] + [list(inf[1])]))
     return atts, tss, rc
 
 
@@ -656,13 +988,20 @@ def queue_phase(paths, expect, msgs, need, contents, kw, deliver, late, R):
     """One fresh real Queue (given pool configuration) over a fresh DiskStorage on `paths`.
     Returns [(clause, m, detail)] or None when the watchdog fired."""
     out = []
+    retry = deliver == 'retry'
     probe = ProbeStore(D.DiskStorage(*paths))
-    relay = RecRelay(deliver)
+    relay = RecRelay(deliver is True, retry)
     q = Queue(probe, relay, **kw)
     ncr = len(_crashes)
     want = set(msgs[m]['sender'] for m in need)
 
     clock = HarnessClock(0.0)
+
+    def reached():
+        seen = {}
+        for a in relay.attempts:
+            seen[a['sender']] = seen.get(a['sender'], 0) + 1
+        return all(seen.get(s_, 0) >= (2 if retry else 1) for s_ in want)
 
     def phase2():
         q.start()
@@ -673,14 +1012,14 @@ def queue_phase(paths, expect, msgs, need, contents, kw, deliver, late, R):
                 gevent.sleep(0.0005)
                 gevent.idle()
                 stable = stable + 1 if (probe.load_done and probe.inprogress == 0) else 0
-            clock.now = 1e9
+            clock.now = 1e11      # past every stored timestamp (Queue-driven histories store real time)
             q.wake.set()
         stable = 0
-        while stable < 25:
+        while stable < (60 if retry else 25):
             gevent.sleep(0.0005)
             gevent.idle()
             if probe.load_done and probe.inprogress == 0:
-                if want <= set(a['sender'] for a in relay.attempts):
+                if reached():
                     return
                 stable += 1
             else:
@@ -693,23 +1032,36 @@ def queue_phase(paths, expect, msgs, need, contents, kw, deliver, late, R):
             gevent.sleep(0.0005)
             gevent.idle()
             n = n + 1 if probe.inprogress == 0 else 0
+
+    post = {}
+
+    def poststate():
+        st3 = D.DiskStorage(*paths)
+        for m in need:
+            try:
+                env, att = st3.get(expect[m]['id'])
+                post[m] = (list(env.recipients), att, flat(env))
+            except Exception as e:
+                post[m] = '%s: %s' % (type(e).__name__, e)
     saved_time = Q.time
     if late:
         Q.time = clock
     try:
         w, _ = core.watchdog_call(phase2, 30)
-        if w == 'ok' and deliver:
+        if w == 'ok' and (deliver is True or retry):
             w, _ = core.watchdog_call(drain, 30)
     finally:
         q.kill()
         gevent.killall(relay.greenlets)
         Q.time = saved_time
+    if w == 'ok' and retry:
+        w, _ = core.watchdog_call(poststate, 30)
     if w != 'ok':
-        R.inconclusive('watchdog: fresh Queue %r did not become quiescent in 30 s' % (kw,))
+        R.inconclusive('watchdog: fresh Queue %r did not become quiescent in 30 s' % (sorted(kw),))
         return None
     R.hit('queue-attempts-judged')
     crashes = _crashes[ncr:]
-    side = {'queue_kwargs': kw, 'store_errors': probe.errors[:4], 'greenlet_crashes': crashes[:4]}
+    side = {'queue_kwargs': sorted(kw), 'store_errors': probe.errors[:4], 'greenlet_crashes': crashes[:4]}
     if crashes:
         R.count('fresh-queue-greenlet-crashes', len(crashes))
     for m in need:
@@ -720,7 +1072,8 @@ def queue_phase(paths, expect, msgs, need, contents, kw, deliver, late, R):
             out.append(('queue-not-attempted', m,
                         dict(side, attempted=[a['sender'] for a in relay.attempts])))
             continue
-        for a in mine:
+        first_ok = True
+        for a in (mine[:1] if retry else mine):
             bad = []
             if a['rcpts'] not in rcs:
                 bad.append('recipients')
@@ -729,12 +1082,61 @@ def queue_phase(paths, expect, msgs, need, contents, kw, deliver, late, R):
             if a['content'] != contents[m]:
                 bad.append('content')
             if bad:
+                first_ok = False
                 out.append(('queue-attempt-wrong-' + '+'.join(bad), m,
                             dict(side, got_rcpts=a['rcpts'], allowed_rcpts=rcs,
                                  got_attempts=a['attempts'], allowed_attempts=sorted(atts))))
                 break
-        if len(mine) > 1:
+        if retry and first_ok:
+            # "resumes retrying it": the failed first attempt of the fresh Queue is followed by another
+            # one, with what the first one left over, and the recovered files carry the new state
+            R.hit('fresh-queue-retry-judged')
+            a1 = mine[0]
+            partial = len(a1['rcpts']) >= 2 and len(set(a1['rcpts'])) == len(a1['rcpts'])
+            want_rc = a1['rcpts'][:-1] if partial else a1['rcpts']
+            det = dict(side, first_attempt_rcpts=a1['rcpts'], first_attempt_attempts=a1['attempts'],
+                       first_attempt_outcome='last recipient delivered, others 450' if partial else '450',
+                       want_rcpts=want_rc, want_attempts=a1['attempts'] + 1)
+            if len(mine) < 2:
+                out.append(('queue-retry-not-resumed', m, det))
+            else:
+                a2, bad = mine[1], []
+                if a2['rcpts'] != want_rc:
+                    bad.append('recipients')
+                if a2['attempts'] != a1['attempts'] + 1:
+                    bad.append('attempts')
+                if a2['content'] != contents[m]:
+                    bad.append('content')
+                if bad:
+                    out.append(('queue-retry-attempt-wrong-' + '+'.join(bad), m,
+                                dict(det, got_rcpts=a2['rcpts'], got_attempts=a2['attempts'])))
+                pm, bad = post.get(m), []
+                if isinstance(pm, str):
+                    out.append(('post-retry-get-raises', m, dict(det, exception=pm)))
+                elif pm is not None:
+                    if pm[0] != want_rc:
+                        bad.append('recipients')
+                    if pm[1] != a1['attempts'] + 1:
+                        bad.append('attempts')
+                    if pm[2] != contents[m]:
+                        bad.append('content')
+                    if bad:
+                        out.append(('post-retry-store-wrong-' + '+'.join(bad), m,
+                                    dict(det, got_rcpts=pm[0], got_attempts=pm[1])))
+        if len(mine) > (2 if retry else 1):
             R.count('message-attempted-more-than-once-by-fresh-queue')
+    # what the fresh Queue hands to the relay besides the required messages: an un-acknowledged or a
+    # removed message may be delivered (again) -- but only as it was accepted, never a torn/other content
+    by_sender = dict((mm['sender'], i) for i, mm in enumerate(msgs))
+    for a in relay.attempts:
+        if a['sender'] in want:
+            continue
+        m = by_sender.get(a['sender'])
+        R.count('fresh-queue-attempts-of-messages-not-required(unacked or removed)')
+        if m is None or a['content'] != flat(build_envelope(msgs[m])):
+            out.append(('queue-attempted-content-never-accepted', m,
+                        dict(side, sender=a['sender'], content_head=a['content'][:80])))
+            break
     return out
 
 
@@ -743,7 +1145,7 @@ def recover(tree, expect, case, R, where, all_configs=True):
     (clause, message-index-or-None, detail)."""
     out = []
     msgs = case['msgs']
-    base = tempfile.mkdtemp(prefix='rec-', dir=where)
+    base = os.path.join(where, 'rec')
     root = os.path.join(base, 't')
     write_tree(tree, root)
     paths = [os.path.join(root, d) for d in DIRS]
@@ -779,6 +1181,18 @@ def recover(tree, expect, case, R, where, all_configs=True):
             return out
         _, ids, got = res
         R.hit('recovery-judged')
+        if need:
+            tc = tree_class(tree)
+            if 'env-without-meta' in tc:
+                R.hit('half-written-state-judged')       # other live messages must still load
+            if 'meta-without-env' in tc:
+                R.hit('half-removed-state-judged')
+            if tree['tmp']:
+                R.hit('leftover-tmp-state-judged')
+        # observation only (the statement does not forbid it by itself; its harmful consequences -- other
+        # messages not loaded / not attempted, torn content handed to the relay -- are judged below)
+        R.count('load-listed-ids-that-are-no-envelope-file(tmp leftovers, orphan meta)',
+                sum(1 for i in ids if (i + '.env') not in tree['env']))
         for m in need:
             st = expect[m]
             atts, tss, rcs = allowed(msgs[m], st)
@@ -823,13 +1237,15 @@ def recover(tree, expect, case, R, where, all_configs=True):
                                         else ['default'])))
         return out
     finally:
-        shutil.rmtree(base, ignore_errors=True)
+        pass        # `where` is removed once per history
 
 
 # --------------------------------------------------------------------------- the check
 
 CLAUSES = ('load-raises', 'lost-message', 'get-raises', 'sender-changed', 'content-changed',
-           'recipients-wrong', 'attempts-wrong', 'timestamp-wrong', 'queue-not-attempted')
+           'recipients-wrong', 'attempts-wrong', 'timestamp-wrong', 'queue-not-attempted',
+           'queue-retry-not-resumed', 'post-retry-get-raises', 'queue-attempted-content-never-accepted')
+CLAUSE_PREFIXES = ('queue-attempt-wrong-', 'queue-retry-attempt-wrong-', 'post-retry-store-wrong-')
 
 
 def crash_label(s):
@@ -847,7 +1263,11 @@ def report(R, case, s, found, origin):
     for clause, m, detail in found:
         op = s['op']
         culprit = crash_label(s)
-        if m is None:
+        if m is None and clause != 'load-raises':
+            kinds = sorted(set(st['inflight'][0] for st in expect if st['inflight']))
+            situation = ('during-' + '+'.join(kinds)) if kinds else 'no-op-in-flight'
+            dc = tree_class(tree) + ('+leftover-tmp' if tree['tmp'] else '')
+        elif m is None:
             # load() raised: the culprits are the listed ids (env present) whose meta is not loadable
             kinds, classes = set(), set()
             for fn in tree['env']:
@@ -877,14 +1297,16 @@ def report(R, case, s, found, origin):
                 situation = ('victim-idle-during-' + '+'.join(kinds) + '-of-other-message') if kinds \
                     else 'no-op-in-flight'
         failing = detail.get('queue_configs_failing') if isinstance(detail, dict) else None
-        if failing and (clause in CLAUSES or clause.startswith('queue-attempt-wrong-')):
+        recognised = clause in CLAUSES or any(clause.startswith(p) for p in CLAUSE_PREFIXES)
+        if failing and recognised:
             # which Queue configurations lose it: the default one (then any), or only bounded pools
             cls = sorted(set('backlog-due-together' if n.startswith('due-after-scan') else
+                             'retrying-relay' if n == 'retry' else
                              'bounded-store-pool' if n.startswith('store_pool') else
                              'bounded-relay-pool' if n.startswith('relay_pool') else n for n in failing))
             cfg = 'any-queue-config' if 'default' in failing else 'only-' + '+'.join(cls)
             mech = '%s/%s/%s/%s' % (clause, cfg, situation, dc)
-        elif clause in CLAUSES or clause.startswith('queue-attempt-wrong-'):
+        elif recognised:
             mech = '%s/%s/%s' % (clause, situation, dc)
         else:
             mech = 'unclassified/%s' % clause
@@ -914,7 +1336,7 @@ def _run_case(case, R, where):
         os.makedirs(os.path.join(root, d))
     model = new_model(case)
     problems = []
-    tracer = Tracer(root, expect_fn=lambda: [dict(st, deliv=list(st['deliv'])) for st in model])
+    tracer = Tracer(root, expect_fn=lambda: copy_model(model))
 
     w, fu = core.watchdog_call(lambda: run_history(case, root, tracer, model, problems), 90)
     if w != 'ok':
@@ -925,8 +1347,51 @@ def _run_case(case, R, where):
     if fu.collisions:
         R.count('forced-uuid-collisions', fu.collisions)
     R.count('histories-' + case['mode'])
+    for k_, v_ in fu.store.notes.items():
+        R.count(k_, v_)
+    if len(case['msgs'][0]['body']) > 30000:
+        R.count('histories-with-an-envelope-over-two-default-aio-chunks')
+    for m_, kinds in fu.store.oplog.items():
+        if kinds.count('mark') >= 2:
+            R.count('messages-with-several-marking-rounds')
+        if case['mode'] == 'queue':
+            # the operation orders the real Queue produced (run-length compressed)
+            comp = [k for i, k in enumerate(kinds) if i == 0 or kinds[i - 1] != k or k == 'inc']
+            R.observe('queue-driven-op-order(per message)', tuple(comp[:14]))
     snaps = tracer.snaps
     R.count('snapshots', len(snaps))
+    if case['mode'] == 'queue':
+        relay = fu.relay
+        if relay.stalled:
+            R.inconclusive('queue-driven history: the Queue stopped driving the scripted attempts (no store or '
+                           'relay activity for 3 s); crash states up to there are judged')
+        for m_, id_ in relay.enqueued:
+            # "whose enqueue had returned": the id enqueue() hands back is one the storage acknowledged
+            R.hit('enqueue-return-checked')
+            if fu.store.by_id.get(id_) != m_:
+                R.violation('enqueue-returned-id-the-storage-never-acknowledged',
+                            'Queue.enqueue returned %r for message m%d; DiskStorage.write acknowledged %r'
+                            % (id_, m_, sorted(fu.store.by_id)), {'enqueued': relay.enqueued})
+    if case['mode'] == 'seq':
+        # effect accounting: between two capture points of a sequential history the tree may change only
+        # across an instrumented effect.  A change elsewhere = a durable effect performed through a name the
+        # harness does not wrap: the crash states inside it are NOT enumerated (and the instrumented
+        # real-kill child shares the blind spot), so this is reported loudly instead of silently missed.
+        R.hit('effect-accounting-checked')
+        for a, b in zip(snaps, snaps[1:]):
+            if a['phase'] != 'before' and a['tree'] != b['tree']:
+                changed = sorted('%s/%s' % (d, fn) for d in DIRS
+                                 for fn in set(a['tree'][d]) | set(b['tree'][d])
+                                 if a['tree'][d].get(fn) != b['tree'][d].get(fn))
+                opk = b['op'].kind if b['op'] else (a['op'].kind if a['op'] else 'idle')
+                R.violation('equivalence/durable-effect-outside-instrumentation/%s/%s' % (
+                                opk, '+'.join(sorted(set(c.split('/')[0] for c in changed)))),
+                            'HARNESS EQUIVALENCE: the directory tree changed between capture points k=%d (%s) and '
+                            'k=%d (%s) with no instrumented effect in between; crash states inside that effect '
+                            'are not enumerated' % (a['k'], crash_label(a), b['k'], crash_label(b)),
+                            {'changed_files': changed[:8], 'before': tree_summary(a['tree']),
+                             'after': tree_summary(b['tree'])})
+                break
 
     seen, seen2 = set(), set()
     sampled = False
@@ -943,10 +1408,11 @@ def _run_case(case, R, where):
             if nlive >= 1:
                 R.nontrivial((case['mode'], op.kind, s['phase'], s['effect'], s['target'],
                               min(s['done'], 60), min(nlive, 3)))
-        if case['mode'] == 'conc':
+        if case['mode'] in ('conc', 'queue'):
             nin = sum(1 for st in expect if st['inflight'])
             if nin > 1:
                 R.count('snapshots-with-several-ops-in-flight')
+                R.hit('overlapping-ops-crash-state-judged')
                 R.observe('overlap(ops in flight)', tuple(sorted(st['inflight'][0] for st in expect
                                                                  if st['inflight'])))
         th = tree_hash(s['tree'])
@@ -964,6 +1430,8 @@ def _run_case(case, R, where):
             R.count('crash-states-judged-under-all-queue-configs')
         R.eval()
         found = recover(s['tree'], expect, case, R, where, all_configs=extra)
+        if case['mode'] == 'queue' and op is not None:
+            R.hit('queue-driven-history-judged')
         if found:
             report(R, case, s, found, 'snapshot')
         elif inside and nlive and not sampled:
@@ -978,9 +1446,14 @@ def _run_case(case, R, where):
         for frac in case.get('kills', []):
             k = min(len(snaps) - 1, int(frac * len(snaps)))
             real_kill(case, k, snaps[k], R, where)
+    # ---- SIGKILL from outside at an instant no instrumentation chose (every mode)
+    if not problems:
+        nstarts = sum(1 for s in snaps if s['phase'] == 'op' and s['effect'] == 'start')
+        for frac, dfrac in case.get('akills', []):
+            async_kill(case, 1 + min(nstarts - 1, int(frac * nstarts)), R, where, delay=0.03 * dfrac)
 
 
-def real_kill(case, k, s, R, where):
+def _kill_dirs(case, where):
     kdir = tempfile.mkdtemp(prefix='kill-', dir=where)
     kroot = os.path.join(kdir, 'live')
     for d in DIRS:
@@ -988,14 +1461,20 @@ def real_kill(case, k, s, R, where):
     cfile = os.path.join(kdir, 'case.json')
     with open(cfile, 'w') as f:
         f.write(core.jdumps(case))
+    return kdir, kroot, cfile
+
+
+def real_kill(case, k, s, R, where):
+    """The child runs the same instrumented history and sends itself SIGKILL inside capture point k."""
+    kdir, kroot, cfile = _kill_dirs(case, where)
     try:
         p = subprocess.run([PY, os.path.abspath(__file__), '--child', cfile, kroot, str(k)],
                            timeout=120, stdout=subprocess.PIPE, stderr=subprocess.STDOUT)
     except subprocess.TimeoutExpired:
         R.inconclusive('real-kill child timed out')
         return
-    if p.returncode != 137:
-        R.inconclusive('real-kill child did not die at the kill point (rc=%s): %s'
+    if p.returncode != -signal.SIGKILL:
+        R.inconclusive('real-kill child did not die of SIGKILL at the kill point (rc=%s): %s'
                        % (p.returncode, p.stdout[-200:].decode('utf-8', 'replace')))
         return
     R.eval()
@@ -1005,13 +1484,97 @@ def real_kill(case, k, s, R, where):
     diffs = trees_equal(s['tree'], killed)
     if diffs:
         R.violation('equivalence/real-kill-tree-differs-from-snapshot/' + crash_label(s),
-                    'HARNESS EQUIVALENCE (not a slimta defect by itself): tree surviving a real os._exit at '
+                    'HARNESS EQUIVALENCE (not a slimta defect by itself): tree surviving a real SIGKILL at '
                     'capture point k=%d differs from capture k' % k,
                     {'k': k, 'crash_point': crash_label(s), 'diffs': diffs,
                      'snapshot': tree_summary(s['tree']), 'killed': tree_summary(killed)})
     found = recover(killed, s['expect'], case, R, where)
     if found:
         report(R, case, dict(s, tree=killed), found, 'real-kill')
+    shutil.rmtree(kdir, ignore_errors=True)
+
+
+def async_kill(case, nth_start, R, where, delay=0.0):
+    """The child runs the history with the module's OWN mkstemp / aio_write / os / uuid (only
+    AioFile.chunk_size lowered) and writes one journal line per operation start / acknowledgement to a pipe.
+    The parent sends SIGKILL from outside once it has read the nth 'start' line (plus a seeded delay of
+    0-30 ms) -- the child is then somewhere inside (or past) that operation, at no instrumented point, possibly with AIO requests in
+    flight.  Expectation = fold of the journal: acknowledged lines count, a started-but-unacknowledged
+    operation may or may not have taken effect.  The surviving directory is recovered like a snapshot."""
+    kdir, kroot, cfile = _kill_dirs(case, where)
+    p = subprocess.Popen([PY, os.path.abspath(__file__), '--journal-child', cfile, kroot],
+                         stdout=subprocess.PIPE, stderr=subprocess.DEVNULL)
+    fd = p.stdout.fileno()
+    buf, starts, sent, deadline, eof = b'', 0, False, time.time() + 120, False
+    try:
+        while not eof:
+            left = deadline - time.time()
+            if left <= 0:
+                break
+            r, _, _ = select.select([fd], [], [], min(left, 5))
+            if not r:
+                continue
+            data = os.read(fd, 65536)
+            if not data:
+                eof = True
+                break
+            buf += data
+            if not sent:
+                starts = buf.count(b'["start"')
+                if starts >= nth_start or b'["done"' in buf:
+                    time.sleep(delay)             # spreads the instant over the operation's duration
+                    p.kill()                      # SIGKILL
+                    sent = True
+    finally:
+        if not sent:
+            p.kill()
+        p.wait()
+        p.stdout.close()
+    if not eof or not sent:
+        R.inconclusive('async-kill child: no kill sent within 120 s (journal lines seen: %d)' % starts)
+        shutil.rmtree(kdir, ignore_errors=True)
+        return
+    if p.returncode != -signal.SIGKILL:
+        R.inconclusive('async-kill child did not die of SIGKILL (rc=%s)' % p.returncode)
+        shutil.rmtree(kdir, ignore_errors=True)
+        return
+    model = new_model(case)
+    lines = buf.split(b'\n')[:-1]                # a torn last line is no acknowledgement
+    finished = False
+    for ln in lines:
+        rec = core.jdec(json.loads(ln.decode()))
+        if rec[0] == 'done':
+            finished = True
+            continue
+        _, seq, m, kind, arg = rec[:5]
+        st = model[m]
+        if rec[0] == 'start':
+            st['inflight'] = [kind, arg]
+        elif rec[0] == 'ack':
+            model_ack(st, kind, arg, rec[5])
+        else:
+            st['state'], st['inflight'] = 'unknown', None
+    expect = copy_model(model)
+    killed = read_tree(kroot)
+    inflight = sorted(st['inflight'][0] for st in expect if st['inflight'])
+    R.eval()
+    R.count('async-sigkills')
+    if inflight:
+        R.count('async-sigkills-with-operation(s)-in-flight')
+        R.hit('async-sigkill-inside-operation-judged')
+    if finished:
+        R.count('async-sigkills-after-the-history-had-finished')
+    R.observe('async-sigkill-state(mode,in flight,tree class,tmp leftovers)',
+              (case['mode'], tuple(inflight), tree_class(killed), min(len(killed['tmp']), 3)))
+    if inflight and sum(1 for st in expect if required(st)):
+        R.nontrivial((case['mode'], 'async-sigkill', tuple(inflight), tree_class(killed),
+                      min(len(killed['tmp']), 3)))
+    found = recover(killed, expect, case, R, where)
+    R.hit('async-sigkill-judged')
+    if found:
+        op = OpCtx(-1, -1, '+'.join(inflight) or 'idle', None)
+        report(R, case, {'k': -1, 'tree': killed, 'expect': expect, 'op': op, 'phase': 'async',
+                         'effect': 'sigkill', 'target': '-', 'done': -1}, found, 'async-sigkill')
     shutil.rmtree(kdir, ignore_errors=True)
 
 
@@ -1027,7 +1590,23 @@ def child_main(argv):
     os._exit(3)        # kill point never reached
 
 
+def journal_child_main(argv):
+    with open(argv[0]) as f:
+        case = core.jdec(json.load(f))
+    gevent.get_hub().print_exception = _hub_hook
+    tracer = Tracer(argv[1], journal_fd=1)
+    model = new_model(case)
+    t = gevent.Timeout(90)
+    t.start()
+    run_history(case, argv[1], tracer, model, [], light=True)
+    tracer.journal('done')
+    time.sleep(100)      # waits to be killed
+    os._exit(3)
+
+
 if __name__ == '__main__':
     if len(sys.argv) >= 5 and sys.argv[1] == '--child':
         child_main(sys.argv[2:])
+    if len(sys.argv) >= 4 and sys.argv[1] == '--journal-child':
+        journal_child_main(sys.argv[2:])
     sys.exit(2)
